@@ -1,7 +1,7 @@
 (* C02 -- pvAdd: in-leaf insertion, pvAddGrow, the pvAddSplit cascade.  Shape is preserved, the contents become
    before ++ x :: after, and the returned position holds x at the index of the insertion point. *)
 From Coq Require Import List ZArith Arith Lia Bool.
-From C02 Require Import BTreeModel BTreeBase BTreeSearch BTreeIter.
+From C02 Require Import BTreeModel BTreeBase SplitSeg BTreeSearch BTreeIter.
 Import ListNotations.
 
 (* ---------- list cutting ---------- *)
@@ -233,7 +233,9 @@ Proof.
     + apply nth_error_insert_at; auto.
     + apply firstn_insert_at; auto.
   - apply Nat.ltb_ge in E1, E2. assert (Hc : n_count n = maxCap) by lia.
-    unfold BTreeModel.split_node. rewrite Lf, H3.
+    assert (Hs0 : split_index (n_count n) j < n_count n) by (apply split_ok; lia).
+    rewrite (split_node_eq maxCap stepRaw blockCount ic n j x [] (fun i => ([], i)) Hj Hs0 (or_introl (conj H3 eq_refl))).
+    unfold split_node_cut. rewrite Lf, H3.
     assert (En : firstn j (@nil node) ++ [] ++ skipn (S j) [] = []) by (rewrite firstn_nil, skipn_nil; reflexivity).
     rewrite En. rewrite firstn_nil, skipn_nil.
     set (ks' := insert_at j x (n_items n)).
@@ -320,7 +322,7 @@ Lemma ins_step ic d n c ch x bef aft r :
   shape (S d) n -> nth_error (n_children n) c = Some ch -> ins_ok d x bef aft r ->
   ins_ok (S d) x (pre n c ++ bef) (aft ++ post n c) (ins_up ic n c r).
 Proof.
-  intros Sh E R. pose proof Sh as (H1 & H2 & L & F).
+  intros Sh E R. pose proof Sh as (H1 & H2 & L & F & Cpx).
   assert (Hc : c < length (n_children n)) by (eapply nth_error_lt; eauto).
   destruct r as [ch' [q i] | c1 sep c2 rt [q i]]; cbn [ins_ok ins_up] in *.
   - destruct R as (Sch' & Fl & V & I & B).
@@ -357,7 +359,10 @@ Proof.
       * exact FlN.
       * apply vpos_done. exact VP.
     + apply Nat.ltb_ge in Efull. assert (Hcnt : n_count n <= maxCap) by lia.
-      unfold BTreeModel.split_node. rewrite (shape_S_internal _ _ _ Sh).
+      assert (Hcc0 : c <= n_count n) by lia.
+      assert (Hs0 : split_index (n_count n) c < n_count n) by (apply split_ok; lia).
+      rewrite (split_node_eq maxCap stepRaw blockCount ic n c sep [c1; c2] _ Hcc0 Hs0 (or_intror (conj L eq_refl))).
+      unfold split_node_cut. rewrite (shape_S_internal _ _ _ Sh).
       change (firstn c (n_children n) ++ [c1; c2] ++ skipn (S c) (n_children n)) with (n_children N).
       change (insert_at c sep (n_items n)) with (n_items N).
       assert (Hcc : c <= n_count n) by lia.
